@@ -1,7 +1,8 @@
 /* C side of the `replysites` engine (property C10): the places where Qsmtpd BUILDS a reply, driven with the
  * embedded strings of the case; the reply goes through the real lib/netio.c and is captured at write().
  *
- * Real code: lib/netio.c (included here), and in replysites_real.c / replysites_filters.c / replysites_owfat.c:
+ * Real code: lib/netio.c (included here), and in replysites_real.c / _filters.c / _owfat.c / _tls.c / _data.c / _main.c / _auth.c:
+ * qsmtpd/qsmtpd.c (smtploop; main renamed), syntax.c, starttls.c, data.c, auth.c + checkpassword backend, child.c, lib/tls.c, ssl_timeoutio.c, base64.c,
  * qsmtpd/commands.c, addrparse.c, addrsyntax.c, xtext.c, filters/{dnsbl,namebl,nomail,spf}.c, antispam.c (check_rbl),
  * backends/user_vpopm/{getfile,vpop}.c (userconf_get_buffer, getfile, getsetting*), lib/control.c (loadlistfd,
  * loadonelinerfd), lib/libowfatconn.c (dnstxt), lib/dns_helpers.c (domainvalid), fmt.c, cdb.c, mmap.c, match.c.
@@ -24,6 +25,7 @@
  *   smtp_rcpt             param 0: accepted; 1: filter says FILTER_DENIED_NOUSER; 2: remote, no MX; 3: remote, null MX
  *   smtp_from_inner       param 0: plain; 1: " SIZE=1" appended; 2: " AUTH=<>" appended (ESMTP)
  *   smtp_helo, smtp_quit  holes: heloname
+ *   smtploop              holes: heloname; the real smtploop() (qsmtpd/qsmtpd.c) writes the greeting, the client stays silent
  *   tls_out               holes: the two texts (qsmtpd/starttls.c, static: called through a wrapper in replysites_tls.c); tls_err: no holes
  *   smtp_data             the real smtp_data() with one accepted recipient and check_strict_rfc2822 set; the DATA content is made from
  *                         <param>: 0 the header named by the hole twice; 1 no Date:; 2 no From:; 3 8-bit octet in the header; 4 8-bit
@@ -61,7 +63,6 @@ static int h_poll(struct pollfd *p, nfds_t n, int t);
 #include <stralloc.h>
 
 /* ---------------------------------------------------------------- netio collaborators */
-int socketd = 5;
 static jmp_buf h_die;
 void dieerror(int e) { (void)e; longjmp(h_die, 1); }
 void log_write(int p, const char *s) { (void)p; (void)s; }
@@ -97,36 +98,21 @@ static ssize_t h_read(int fd, void *buf, size_t n)
 	return k;
 }
 
-/* ---------------------------------------------------------------- globals the real code expects */
-struct xmitstat xmitstat;
-int relayclient;
-char *rcpthosts;
-off_t rcpthsize;
-unsigned int rcptcount;
-int submission_mode;
-struct recip *thisrecip;
-unsigned int goodrcpt;
-const char **globalconf;
-unsigned long databytes;
-string heloname;
-string liphost;
-unsigned long comstate;
+/* ---------------------------------------------------------------- globals: defined by the real qsmtpd/qsmtpd.c (replysites_main.c) */
 static struct smtpcomm h_command;
-struct smtpcomm *current_command = &h_command;
+extern int socketd;
 const char *blocktype[] = { NULL, "user", "domain", NULL, "global" };
 
 void freedata(void) { }
 static jmp_buf h_cleanup;
 void conn_cleanup(const int rc) { (void)rc; longjmp(h_cleanup, 1); }
+void h_exit(int rc) { (void)rc; longjmp(h_cleanup, 1); }
+int ask_dnsname(const struct in6_addr *ip, char **result) { (void)ip; *result = NULL; return 0; }
 void tarpit(void) { }
-int err_control(const char *a) { (void)a; return 0; }
-int err_control2(const char *a, const char *b) { (void)a; (void)b; return 0; }
 void logwhitelisted(const char *reason, const int t, const int u) { (void)reason; (void)t; (void)u; }
 int check_host(const char *a) { (void)a; return SPF_NONE; }
 /* the queue: the message goes nowhere, qmail-queue is not started */
 int queuefd_data = -1, queuefd_hdr = -1;
-int authhide;
-string msgidhost;
 int queue_init(void) { queuefd_data = open("/dev/null", O_WRONLY); return 0; }
 void queue_reset(void) { if (queuefd_data >= 0) close(queuefd_data); queuefd_data = -1; }
 int queue_envelope(const unsigned long s, const int c) { (void)s; (void)c; return 0; }
@@ -249,6 +235,7 @@ static void run_case(int nf, struct field *f)
 	xmitstat.helostr.s = "client.example.net"; xmitstat.helostr.len = strlen(xmitstat.helostr.s);
 	static const char rh[] = "example.org\n";
 	rcpthosts = (char *)rh; rcpthsize = sizeof(rh) - 1;
+	socketd = 5; current_command = &h_command;
 	relayclient = 0; rcptcount = 0; goodrcpt = 0; thisrecip = NULL; submission_mode = 0; databytes = 0;
 	globalconf = NULL; h_auth = NULL; h_havecert = 0; h_hastxt = 0; h_userexists = 0; h_mxresult = 0;
 	h_filterresult = FILTER_PASSED; r_hold = 0;
@@ -377,6 +364,15 @@ static void run_case(int nf, struct field *f)
 			}
 			free(xmitstat.helostr.s);
 			xmitstat.helostr.s = NULL;
+		} else if (is_name(&f[1], "smtploop")) {
+			/* the real smtploop() of qsmtpd.c: greeting, then the client says nothing and the read times out */
+			extern void h_smtploop(void);
+			if (nholes < 1) { out_str(" BADCASE"); return; }
+			heloname.s = h0; heloname.len = strlen(h0);
+			unsetenv("BANNER");
+			linenlen = 0; linein.len = 0; linein.s = lineinbuf; timeout = 1;
+			if (setjmp(h_cleanup) == 0 && setjmp(h_die) == 0)
+				h_smtploop();
 		} else if (is_name(&f[1], "tls_out")) {
 			extern int h_tls_out(const char *, const char *);
 			if (nholes != 2) { out_str(" BADCASE"); return; }
